@@ -2,6 +2,7 @@
 // randomx_calculate_commitment on seeded and boundary inputs and records every call as ndjson.
 // usage: rx_blake --seed N --tier quick|thorough --out FILE
 #include "vh.hpp"
+#include <sys/mman.h>
 #include "blake2/blake2.h"
 #include "randomx.h"
 #include <algorithm>
@@ -26,9 +27,13 @@ static void oneshot(Rng& rng, size_t inlen, size_t outlen, size_t keylen, bool i
 }
 
 static void stream(Rng& rng, size_t outlen, size_t keylen, bool keyed, bool keyNull,
-	const std::vector<size_t>& chunkLens, size_t reqlen, bool post) {
+	const std::vector<size_t>& chunkLens, size_t reqlen, bool post, bool usedBefore = false) {
 	std::vector<uint8_t> key = rng.bytes(keylen);
 	blake2b_state S;
+	memset(&S, 0, sizeof S);
+	// usedBefore: the state object already served a valid session (init + update) - the session under test must not depend on that,
+	// and a REJECTED init must leave an object on which update and final fail
+	if (usedBefore) { uint8_t junk[3] = { 1, 2, 3 }; blake2b_init(&S, 32); blake2b_update(&S, junk, 3); }
 	std::vector<long long> rcs;
 	int rc;
 	if (keyed) rc = blake2b_init_key(&S, outlen, keyNull ? nullptr : key.data(), keylen);
@@ -143,11 +148,37 @@ int main(int argc, char** argv) {
 		size_t ol = 1 + rng.below(64);
 		stream(rng, ol, keyed ? 1 + rng.below(64) : 0, keyed, false, cuts(T, pos), ol + rng.below(3), rng.below(2));
 	}
+	// ---- a message longer than 2^32 bytes (zero pages, never resident): the one-shot call and the streamed session must agree;
+	//      the digest of the first (length mod 2^32) bytes alone is recorded to show that no length was truncated to 32 bits
+	if (atoi(arg(argc, argv, "--big", "1"))) {
+		const size_t extra = 3 + rng.below(120);
+		const size_t n = ((size_t)1 << 32) + extra;
+		uint8_t* big = (uint8_t*)mmap(nullptr, n, PROT_READ, MAP_PRIVATE | MAP_ANONYMOUS | MAP_NORESERVE, -1, 0);
+		if (big != MAP_FAILED) {
+			uint8_t d1[32], d2[32], d3[32];
+			int rc1 = blake2b(d1, 32, big, n, nullptr, 0);
+			blake2b_state S; int rc2 = blake2b_init(&S, 32);
+			for (size_t off = 0; off < n; off += (size_t)1 << 30) { size_t c = n - off < ((size_t)1 << 30) ? n - off : (size_t)1 << 30; rc2 |= blake2b_update(&S, big + off, c); }
+			rc2 |= blake2b_final(&S, d2, 32);
+			blake2b(d3, 32, big, extra, nullptr, 0);
+			Line l; l.str("e", "big").num("lenHigh", (long long)(n >> 32)).num("lenLow", (long long)extra).num("rc1", rc1).num("rc2", rc2).bytes("oneshot", d1, 32).bytes("streamed", d2, 32).bytes("truncated", d3, 32);
+			l.emit(out);
+			munmap(big, n);
+		}
+	}
 	// misuse / invalid parameters of the streaming interface
 	stream(rng, 0, 0, false, false, { 5 }, 64, false);
 	stream(rng, 65, 0, false, false, { 5 }, 64, false);
 	stream(rng, 32, 0, true, false, { 5 }, 32, false);   // init_key with keylen 0
 	stream(rng, 32, 65, true, false, { 5 }, 32, false);  // key too long
+	// the same on a state object that was in use (history of the object must not matter)
+	stream(rng, 0, 0, false, false, { 5 }, 64, false, true);
+	stream(rng, 65, 0, false, false, { 5, 130 }, 64, true, true);
+	stream(rng, 32, 0, true, false, { 5 }, 32, false, true);
+	stream(rng, 32, 65, true, false, { 5 }, 32, true, true);
+	stream(rng, 32, 16, true, true, { 5 }, 32, false, true);   // key pointer NULL
+	stream(rng, 64, 0, false, false, { 100, 100 }, 64, false, true);
+	stream(rng, 20, 20, true, false, { 128, 1 }, 20, true, true);
 	stream(rng, 32, 16, true, true, { 5 }, 32, false);   // key NULL
 	stream(rng, 32, 0, false, false, { 5, 200 }, 31, true); // output buffer too short
 
